@@ -141,7 +141,15 @@ def parse_log(text):
     for m in CHECK_RE.finditer(text):
         num, name, status, desc, loc = m.groups()
         if ".cover." in name or status in ("SATISFIED", "UNSATISFIABLE"):
-            r["covers"].append({"desc": desc, "status": status})
+            # goto-instrument's per-loop unwinding (E8 unwindset) clones the code after a mid-loop exit once per unrolled
+            # iteration, and with it the cover statements: clones of one source-level cover (same description, same
+            # location) count as ONE witness, satisfied iff any clone is
+            key = desc + " @ " + (loc or "").strip()
+            prev = next((c for c in r["covers"] if c["key"] == key), None)
+            if prev is None:
+                r["covers"].append({"desc": desc, "status": status, "key": key})
+            elif status == "SATISFIED" or (status == "UNSATISFIABLE" and prev["status"] == "UNREACHABLE"):
+                prev["status"] = status
             continue
         r["checks"] += 1
         if status == "FAILURE":
@@ -444,7 +452,11 @@ def main(argv):
     # VERIF_SEED only permutes the order in which harnesses are scheduled (nothing else is random)
     sel.sort(key=lambda h: hashlib.sha256((str(seed) + h.name).encode()).hexdigest())
     # longest first within that is better for wall time
-    sel.sort(key=lambda h: -(h.timeout or 0))
+    try:
+        timings = json.load(open(os.path.join(VERIF, "lib", "timings.json")))
+    except Exception:
+        timings = {}
+    sel.sort(key=lambda h: -timings.get(h.name, (h.timeout or 0)))
 
     run_id = "%s-%s-%d-%d" % (prop, a.tier, os.getpid(), int(t0))
     files = set(h.file for h in sel)
